@@ -1461,7 +1461,38 @@ func ruleMarshalSplices(c *Ctx, rule string) {
 				return
 			}
 			key := core.CalleeKey(&call.Call)
+			judgeComma := func() {
+				n++
+				byLen, byNil := false, false
+				for _, g := range guardsOf(call) {
+					isMapTest := false
+					for _, v := range backSlice(g.Cond, 10) {
+						if _, isMap := v.Type().Underlying().(*types.Map); isMap {
+							isMapTest = true
+						}
+					}
+					if !isMapTest {
+						continue
+					}
+					if usesLen(g.Cond, 3) {
+						byLen = true
+					} else if _, k, _, ok := eqConst(g); ok && k.IsNil() {
+						byNil = true
+					}
+				}
+				c.R.Check(byLen || !byNil, rule, fmt.Sprintf("%s:comma-splice@%s", core.FuncName(originOf(fn)), strings.TrimPrefix(key, "bytes.Buffer.")), c.pos(call), "the comma between the two encodings is written only when the map has members", "the two encodings are joined with a comma under a test that the map is not nil, not that it has members: a Schema whose Extra is present but empty marshals to \"{...,}\", which is not JSON")
+			}
 			switch {
+			case (key == "bytes.Buffer.WriteByte" || key == "bytes.Buffer.WriteRune") && len(call.Call.Args) == 2:
+				if k, ok := call.Call.Args[1].(*ssa.Const); ok && k.Value != nil && k.Value.Kind() == constant.Int {
+					if kv, _ := constant.Int64Val(k.Value); kv == ',' {
+						judgeComma()
+					}
+				}
+			case key == "bytes.Buffer.WriteString" && len(call.Call.Args) == 2:
+				if sv, ok := constString(call.Call.Args[1]); ok && sv == "," {
+					judgeComma()
+				}
 			case key == "builtin.append" && len(call.Call.Args) == 2:
 				// append(x, ',')
 				comma := false
